@@ -36,6 +36,7 @@ WellFormed(body) ==
   /\ body[Len(body)].sym[Len(body[Len(body)].sym)] # "-"
 MInit == \E body \in SeqsUpTo(BodyTok(Table), MaxTok) \cup GrainNames(Table), pre \in Prefixes(Table), ch \in Charges :
            /\ WellFormed(body)
+           /\ (body \in GrainNames(Table) => pre = <<>>)        \* a grain is not an ice species: no surface prefix on it
            /\ toks = pre \o body
            /\ SInit(Table, Encode(pre \o body) \o ch)
 MSpec == MInit /\ [][SNext /\ UNCHANGED toks]_<<svars, toks>>
